@@ -7,7 +7,8 @@
    (StrProofs.v);  [reach al s0 s] = "s is reached from s0 by some history of well-formed
    set operations under the allocator behaviour al";  a set operation takes its bytes either
    from memory outside the node (OpSetLen, OpSet) or from the node's own current buffer,
-   json_object_get_string(o) + off (OpSetOwnLen, OpSetOwn: in-place truncation, substring);
+   json_object_get_string(o) + off (OpSetOwnLen, OpSetOwn: in-place truncation, suffix,
+   substring, the contents with their terminator; the ranges may overlap);
    [op_wf c o] is the caller contract relative to the contents c at the call;  every result type has an explicit
    undefined-behaviour constructor (SUB / NUB / DUB), so "never undefined" is part of each
    statement. *)
@@ -206,7 +207,8 @@ Proof. exact model_detects_uaf_and_double_free. Qed.
 Print Assumptions C11_model_detects_uaf_and_double_free.
 
 (* "copy, then release": with the release first, a source inside the node's own buffer is read
-   after its release (UB in the model); a partially overlapping source is UB as for memcpy *)
+   after its release (UB in the model); an overlapping source is defined (memmove), and so is
+   one that makes the string grow (contents plus terminator) *)
 Theorem C11_copy_before_free_matters :
   match new_string_len (fun _ _ => true) [1; 2; 3] 3 with
   | NOk s0 =>
@@ -224,7 +226,19 @@ Theorem C11_copy_before_free_matters :
                               0 (PHeap p 0) 5 5 = SUB
                | None => False
                end) /\
-              str_step (fun _ _ => true) s1 (OpSetOwnLen 1 5) = SUB
+              (* overlapping source, json_object_set_string_len(o, json_object_get_string(o) + 1, 5):
+                 defined, the bytes are those before the call *)
+              (match str_step (fun _ _ => true) s1 (OpSetOwnLen 1 5) with
+               | SOk s2 r _ => r = 1 /\ get_string s2 = Some (map Some [66; 67; 68; 69; 70])
+               | SUB => False
+               end) /\
+              (* the contents together with their terminator: the grow branch, whose copy
+                 precedes the release of the buffer the source points into *)
+              (match str_step (fun _ _ => true) s1 (OpSetOwnLen 0 11) with
+               | SOk s2 r _ => r = 1 /\ get_string_len s2 = 11 /\ live_of_log (elog s2) = [2; 0] /\
+                               get_string s2 = Some (map Some [65; 66; 67; 68; 69; 70; 71; 72; 73; 74; 0])
+               | SUB => False
+               end)
           | None => False
           end
       | SUB => False
